@@ -72,7 +72,11 @@ CLAIMS.update({
         "words and handover spaces, LocalNode::with nesting) with Owicki-Gries local correctness and interference freedom; WF2 holds in every "
         "reachable state, also after the generation wrap; a concrete run through the wrap is computed. " + TIE + " Programs preset the counter "
         "0-3 transactions before the wrap (verif::set_generation), with and without helpers.",
-   note=NOTE + "Arc counter overflow and allocation failure are out of scope; unwinding of user panics is C18; hanging is C08/C09.",
+   note=NOTE + "'After such a wrap-around all other guarantees continue to hold': ASModel/Wrp*.v re-prove the master invariant without the bound on the generation counters "
+        "(generation uniqueness with a modular age), for runs of fewer than 2^62 steps in which set_generation is at most the first command of a thread (any value): "
+        "C13_wrap_no_use_after_free, C13_wrap_accounting, C13_wrap_load_linearizable hold through the wrap, the cooldown it triggers and the re-claim; C13_wrap_scope_inhabited is a "
+        "checked run that wraps with a writer helping on the wrapped generation. Arc counter overflow and allocation failure are out of scope; unwinding of user panics is C18; "
+        "hanging is C08/C09.",
    technique="Rocq/Coq proof (inductive invariant over all schedules, Owicki-Gries) + trace correspondence"),
  "C16": dict(engine="ASModel",
    text="Coq theorems over ASModel: C16_cache_linearizable (instrumented runs, all schedules, any number of threads and caches): a completed Cache::new / Cache::load leaves in the "
